@@ -392,4 +392,52 @@ theorem good_caRun (t : Timing) (ops : List CaOp) (o : CaObjects) (h : ∀ s ∈
   | nil => exact h
   | cons op ops ih => exact ih (caStep t o op) (good_caStep t o op h)
 
+/-! ### No repository sync queued ⇒ nothing changed -/
+
+theorem reIssue_false_id (o : CaObjects) (force : Bool) (now : Nat) (t : Timing) (ins : IssueInputs)
+    (h : (reIssue o force now t ins).2 = false) : (reIssue o force now t ins).1 = o := by
+  simp only [reIssue] at h ⊢
+  have hall : ∀ e ∈ o, (force || e.2.requiresReissuance now t.hoursBefore) = false := by
+    intro e he
+    cases hc : (force || e.2.requiresReissuance now t.hoursBefore)
+    · rfl
+    · have : (o.any fun e => force || e.2.requiresReissuance now t.hoursBefore) = true :=
+        List.any_eq_true.mpr ⟨e, he, hc⟩
+      rw [h] at this; cases this
+  have : o.map (fun e => if (force || e.2.requiresReissuance now t.hoursBefore) = true
+      then (e.1, e.2.reissue t (ins e.1).1 (ins e.1).2) else e) = o.map id := by
+    apply List.map_congr_left
+    intro e he
+    simp [hall e he]
+  simpa using this
+
+theorem applyEvent_nosync_id (t : Timing) (o o' : CaObjects) (e : ObjEvent) (f : Bool)
+    (hs : schedulesSync e = false) (h : applyEvent t o e = some (o', f)) : o' = o := by
+  cases e <;> simp [schedulesSync] at hs
+  · simp [applyEvent] at h; exact h.2.1.symm
+  · simp [applyEvent] at h; exact h.1.symm
+  · simp [applyEvent] at h; exact h.1.symm
+
+theorem applyEvents_nosync_id (t : Timing) (evs : List ObjEvent) (o o' : CaObjects) (f : Bool)
+    (hs : evs.any schedulesSync = false) (h : applyEvents t o evs = some (o', f)) : o' = o := by
+  induction evs generalizing o f with
+  | nil => simp [applyEvents] at h; exact h.1.symm
+  | cons e es ih =>
+    simp only [List.any_cons, Bool.or_eq_false_iff] at hs
+    simp only [applyEvents] at h
+    cases he : applyEvent t o e with
+    | none => simp [he] at h
+    | some r =>
+      obtain ⟨o1, f1⟩ := r
+      simp only [he] at h
+      cases hes : applyEvents t o1 es with
+      | none => simp [hes] at h
+      | some r2 =>
+        obtain ⟨o2, f2⟩ := r2
+        simp [hes] at h
+        obtain ⟨rfl, _⟩ := h
+        have h1 := applyEvent_nosync_id t o o1 e f1 hs.1 he
+        subst h1
+        exact ih o1 f2 hs.2 hes
+
 end KM.Ca.Pub
